@@ -1,8 +1,22 @@
 package mem2reg
 
 import (
+	"sort"
+
 	"github.com/gogpu/naga/ir"
 )
+
+// sortedVars returns the variable indices of a candidate set in ascending
+// order. The walkers append expressions and phi statements per candidate, so
+// visiting the set in map order would make the output differ between runs.
+func sortedVars(set map[uint32]struct{}) []uint32 {
+	out := make([]uint32, 0, len(set))
+	for v := range set {
+		out = append(out, v)
+	}
+	sort.Slice(out, func(i, j int) bool { return out[i] < out[j] })
+	return out
+}
 
 // promotionContext bundles the per-function state needed by the
 // recursive block walker.
@@ -254,7 +268,7 @@ func rewriteBlock(ctx *promotionContext, blk *[]ir.Statement, candidates map[uin
 // without explicit Init see zero per the WGSL specification).
 func initialValues(ctx *promotionContext, candidates map[uint32]struct{}) map[uint32]ir.ExpressionHandle {
 	out := make(map[uint32]ir.ExpressionHandle, len(candidates))
-	for v := range candidates {
+	for _, v := range sortedVars(candidates) {
 		lv := &ctx.fn.LocalVars[v]
 		if lv.Init != nil {
 			out[v] = *lv.Init
